@@ -94,7 +94,7 @@ CLAIMS = {
    text="Proof for the whole verification path + partial proof elsewhere + hostile-input execution. Proved in Lean for all inputs and both build modes: expand_public followed by verify / hash_verify / _internal_verify never panics on ANY "
         "public-key bytes and ANY signature bytes (verification_path_never_panics: sig_decode's accumulator and hint index discipline, sample_in_ball's Hamming-weight assertions, rej_ntt_poly, the lazy NTT pipeline, use_hint within w1_encode's "
         "asserted range, simple_bit_pack filling its slice); the three signing entry points never panic on any private key deserialisation accepted, for every message / context / pre-hash / RNG behaviour, within the first fuel attempts with fuel*l <= 65535 (signing_never_panics: expand_mask, commitment pipeline, high_bits/w1_encode, c*s1/c*s2/c*t0 through mont_reduce and inv_ntt, partial_reduce32/low_bits/make_hint inside their domains, every assertion of sig_encode and hint_bit_pack implied by the acceptance tests); private-key deserialisation never faults; scalar kernels on their domains; the inverse NTT on every vector that fits partial_reduce32; all six entry points on over-long contexts; "
-        "keygen and both signers on every failing generator; range self-checks cannot fire on accepted keys; derivation ignores t0. The three pinned-tree panics (F1, F2, F3) are refuted on frozen definitions / removed. Not proved: key generation, key serialisation and public-key derivation beyond their (proved) NTT pipelines and codecs; those run on every check in the checked build on random and constructed hostile inputs (random pk/sk/sig, accepted-but-dishonest keys, edited t0, forgeries).",
+        "keygen and both signers on every failing generator; range self-checks cannot fire on accepted keys; derivation ignores t0. The three pinned-tree panics (F1, F2, F3) are refuted on frozen definitions / removed. key generation (seeded, and RNG-driven for every generator behaviour) and public-key derivation from any accepted private key never panic and return well-formed keys. Not proved: into_bytes of either key (its range self-checks need the NTT inversion identity mod q); that runs on every check in the checked build on random and constructed hostile inputs (random pk/sk/sig, accepted-but-dishonest keys, edited t0, forgeries).",
    note=TB + "the verification theorem assumes of the hash oracles only that they return as many bytes as requested; the model's samplers read a finite XOF prefix, so its extra outcome Fault.fuel is allowed by the theorem and is not a crate behaviour. residual: more than 65535/l consecutive rejections would overflow the u16 attempt counter (probability below 2^-256).",
    tech="Lean 4 no-fault theorems in checked mode + panic-oracle execution of the checked build on hostile inputs"),
  'C18': dict(cat='proof', ref='DESIGN 5 C18, 3.2',
